@@ -270,8 +270,9 @@ def schema_item():
 
 
 # ----------------------------------------------------------------------------- main
-HEADER = """(* GENERATED by harness/gen_generated.py from %s -- do not edit; rewritten on every run. *)
-From Coq Require Import List NArith.
+HEADER = """(* GENERATED by harness/gen_generated.py from the repository's working tree%.0s -- do not edit; rewritten on every run
+   (the tree it was read from is recorded in Gen/status.json). *)
+From Coq Require Import List NArith Bool Arith.
 From Conductor Require Import Lib.Regex Lib.PyRegex Lib.SchemaTypes.
 Import ListNotations.
 Local Open Scope N_scope.
@@ -285,6 +286,129 @@ REGEXES = [
     ("conductor.cli.gc", "_EXPERIMENT_TASK_REGEX", "gc_experiment_task_regex"),
     ("conductor.cli.gc", "_REGULAR_TASK_REGEX", "gc_regular_task_regex"),
 ]
+
+
+# ----------------------------------------------------------------------------- code fragments -> Coq
+# Small decision expressions of the scheduler and of the version generator are translated from the
+# Python AST; the hand-written models are proved equal to them (tie lemmas), so a change of the source
+# expression breaks a proof obligation.  Strict whitelist; anything else is Unsupported (fail-closed).
+def _find_method(relpath, cls, name):
+    tree = ast.parse(open(os.path.join(SRC, relpath), encoding="utf-8").read())
+    for node in tree.body:
+        if isinstance(node, ast.ClassDef) and node.name == cls:
+            for f in node.body:
+                if isinstance(f, ast.FunctionDef) and f.name == name:
+                    return f
+    raise Unsupported("%s: no method %s.%s" % (relpath, cls, name))
+
+
+def _body_without_docstring(f):
+    body = list(f.body)
+    if body and isinstance(body[0], ast.Expr) and isinstance(body[0].value, ast.Constant) and isinstance(body[0].value.value, str):
+        body = body[1:]
+    return body
+
+
+def _bexpr(node, leaves, nat_ops, suffix="%nat"):
+    """boolean / comparison expression over whitelisted leaves -> Coq text"""
+    src = ast.unparse(node)
+    if src in leaves:
+        return leaves[src]
+    if isinstance(node, ast.BoolOp):
+        op = {ast.And: " && ", ast.Or: " || "}[type(node.op)]
+        parts = [_bexpr(v, leaves, nat_ops, suffix) for v in node.values]
+        out = parts[0]
+        for q in parts[1:]:
+            out = "(%s%s%s)" % (out, op, q)
+        return out
+    if isinstance(node, ast.UnaryOp) and isinstance(node.op, ast.Not):
+        return "(negb %s)" % _bexpr(node.operand, leaves, nat_ops, suffix)
+    if isinstance(node, ast.Compare) and len(node.ops) == 1:
+        a, b = _aexpr(node.left, leaves, suffix), _aexpr(node.comparators[0], leaves, suffix)
+        t = type(node.ops[0])
+        if t in nat_ops:
+            return nat_ops[t] % (a, b)
+    raise Unsupported("expression outside the supported fragment: %s" % src)
+
+
+def _aexpr(node, leaves, suffix="%nat"):
+    src = ast.unparse(node)
+    if src in leaves:
+        return leaves[src]
+    if isinstance(node, ast.Constant) and isinstance(node.value, int) and not isinstance(node.value, bool) and 0 <= node.value < 1000:
+        return "%d%s" % (node.value, suffix)
+    if isinstance(node, ast.BinOp) and isinstance(node.op, ast.Add):
+        return "(%s + %s)" % (_aexpr(node.left, leaves, suffix), _aexpr(node.right, leaves, suffix))
+    raise Unsupported("arithmetic outside the supported fragment: %s" % src)
+
+
+NAT_OPS = {ast.Eq: "(Nat.eqb %s %s)", ast.Lt: "(Nat.ltb %s %s)", ast.LtE: "(Nat.leb %s %s)"}
+N_OPS = {ast.Eq: "(%s =? %s)", ast.Lt: "(%s <? %s)", ast.LtE: "(%s <=? %s)"}
+
+
+def gate_item():
+    """Executor._launch_ops_if_able: the two `can_launch_*` conditions and the loop exit test"""
+    f = _find_method("conductor/execution/executor.py", "Executor", "_launch_ops_if_able")
+    body = _body_without_docstring(f)
+    if not (body and isinstance(body[0], ast.While) and isinstance(body[0].test, ast.Constant) and body[0].test.value is True):
+        raise Unsupported("_launch_ops_if_able does not start with `while True:`")
+    w = body[0].body
+    leaves = {"self._ready_to_run.has_ops()": "has_ops", "self._ready_to_run.has_parallelizable_ops()": "has_par",
+              "self._running_parallel": "runpar", "len(self._inflight_ops)": "inflight", "self._slots": "slots"}
+    defs = []
+    names = []
+    k = 0
+    while k < len(w) and isinstance(w[k], ast.Assign) and len(w[k].targets) == 1 and isinstance(w[k].targets[0], ast.Name):
+        nm = w[k].targets[0].id
+        defs.append((nm, _bexpr(w[k].value, dict(leaves, **{n: n for n in names}), NAT_OPS)))
+        names.append(nm)
+        k += 1
+    if not names or k >= len(w) or not isinstance(w[k], ast.If) or w[k].orelse or len(w[k].body) != 1 or not isinstance(w[k].body[0], ast.Break):
+        raise Unsupported("the launch loop does not have the shape <conditions>; if <test>: break")
+    stop = _bexpr(w[k].test, {n: n for n in names}, NAT_OPS)
+    lets = "".join("  let %s := %s in\n" % d for d in defs)
+    return ("(* conductor/execution/executor.py Executor._launch_ops_if_able: `%s` ends the launch loop *)\n"
+            "Definition gen_gate_open (has_ops has_par runpar : bool) (inflight slots : nat) : bool :=\n%s  negb %s.\n"
+            % (_cmt(ast.unparse(w[k].test)), lets, stop))
+
+
+def version_item():
+    """VersionIndex.generate_new_output_version: the timestamp as a function of the clock and the last timestamp"""
+    f = _find_method("conductor/execution/version_index.py", "VersionIndex", "generate_new_output_version")
+    body = _body_without_docstring(f)
+    if not (isinstance(body[0], ast.Assign) and ast.unparse(body[0]) == "timestamp = int(time.time())"):
+        raise Unsupported("generate_new_output_version does not start with timestamp = int(time.time())")
+    leaves = {"timestamp": "now", "self._last_timestamp": "last"}
+
+    def branch(stmts):
+        if len(stmts) != 1:
+            raise Unsupported("a branch of the timestamp adjustment is not a single assignment")
+        st = stmts[0]
+        if isinstance(st, ast.AugAssign) and isinstance(st.target, ast.Name) and st.target.id == "timestamp" and isinstance(st.op, ast.Add):
+            return "(now + %s)" % _aexpr(st.value, leaves, "%N")
+        if isinstance(st, ast.Assign) and ast.unparse(st.targets[0]) == "timestamp" and len(st.targets) == 1:
+            return _aexpr(st.value, leaves, "%N")
+        if isinstance(st, ast.If):
+            return chain(st)
+        raise Unsupported("statement outside the supported fragment: %s" % ast.unparse(st))
+
+    def chain(node):
+        return "(if %s then %s else %s)" % (_bexpr(node.test, leaves, N_OPS, "%N"), branch(node.body), branch(node.orelse) if node.orelse else "now")
+
+    k = 1
+    expr = "now"
+    if isinstance(body[k], ast.If):
+        expr = chain(body[k])
+        k += 1
+    if ast.unparse(body[k]) != "self._last_timestamp = timestamp":
+        raise Unsupported("the generated timestamp is not stored in _last_timestamp right after its adjustment: %s" % ast.unparse(body[k]))
+    ret = [st for st in body[k + 1:] if isinstance(st, ast.Return)]
+    if len(ret) != 1 or not isinstance(ret[0].value, ast.Call) or ast.unparse(ret[0].value.func) != "Version" or ast.unparse(ret[0].value.args[0]) != "timestamp":
+        raise Unsupported("generate_new_output_version does not return Version(timestamp, ...)")
+    if any("timestamp" in ast.unparse(st) and not isinstance(st, ast.Return) for st in body[k + 1:]):
+        raise Unsupported("timestamp is modified after it was stored")
+    return ("(* conductor/execution/version_index.py VersionIndex.generate_new_output_version *)\n"
+            "Definition gen_new_version (last now : N) : N := %s.\n" % expr)
 
 
 def generate():
@@ -311,6 +435,12 @@ def generate():
     except Exception as ex:  # pylint: disable=broad-except
         failures["task_type_table"] = "%s: %s" % (type(ex).__name__, ex)
         parts.append("(* task_type_table: NOT TRANSLATED: %s *)\n" % str(ex).replace("*)", "* )"))
+    for coqname, fn in (("gen_gate_open", gate_item), ("gen_new_version", version_item)):
+        try:
+            parts.append(fn())
+        except Exception as ex:  # pylint: disable=broad-except
+            failures[coqname] = "%s: %s" % (type(ex).__name__, ex)
+            parts.append("(* %s: NOT TRANSLATED: %s *)\n" % (coqname, str(ex).replace("*)", "* )")))
     return "\n".join(parts), failures
 
 
